@@ -3,7 +3,15 @@ package main
 // splitmix64: every random choice of a run derives from one seed.
 type rng struct{ s uint64 }
 
-func newRng(seed uint64) *rng { return &rng{s: seed*0x9E3779B97F4A7C15 + 0x1234567} }
+// newRng scrambles the seed first, so that consecutive seeds give unrelated
+// streams (the raw splitmix state of seed+1 is the state of seed one step on).
+func newRng(seed uint64) *rng {
+	z := seed + 0xD1B54A32D192ED03
+	z = (z ^ (z >> 32)) * 0xDABA0B6EB09322E3
+	z = (z ^ (z >> 32)) * 0xDABA0B6EB09322E3
+	z = z ^ (z >> 32)
+	return &rng{s: z}
+}
 
 func (r *rng) next() uint64 {
 	r.s += 0x9E3779B97F4A7C15
